@@ -19,7 +19,11 @@ assumed('fun:dt', params={'fn': 'Fun[dt]', 'x': 'str'}, returns='Opaque[PyVal]',
         notes='a datatype function of a schema: a pure function of its argument that returns or raises '
               'ValueError (C07 quantifies over such schemas)')
 prim('kt_raises', 'Fun[kt], str -> bool')
-prim('kt_val', 'Fun[kt], str -> str')
+# accepts_nonempty(fn): the conversion never returns '', '*' or '+' (true of the stock regex conversions - their
+# languages start with a letter or '_', C09; an ASSUMPTION for a key type supplied by a schema)
+prim('accepts_nonempty', 'Fun[kt] -> bool')
+prim('kt_val', 'Fun[kt], str -> str', args=['fn', 'x'],
+     axioms=["implies(accepts_nonempty(fn) and not kt_raises(fn, x), result != '' and result != '*' and result != '+')"])
 assumed('fun:kt', params={'fn': 'Fun[kt]', 'x': 'str'}, returns='str', pure=True,
         ensures=[Clause('result == kt_val(fn, x)')],
         raises=[Raise('ValueError', when='kt_raises(fn, x)')],
@@ -217,15 +221,18 @@ contract('info.MultiKeyInfo.add_valueinfo', params={'vi': VI, 'key': 'Opt[str]'}
                          label='default-appended-in-document-order')])
 contract('info.BaseKeyInfo.adddefault',
          params={'value': 'str', 'position': POSN, 'key': ('Opt[str]', 'None')},
+         requires=[Clause('key_default_shape(self)', label='defaults-have-the-shape-of-the-kind-of-key')],
          modifies=['self._default'],
-         ensures=[Clause("not self._finished and (self.name == '+') == (key is not None)", carries='C10',
+         ensures=[Clause('key_default_shape(self)', label='defaults-keep-the-shape-of-the-kind-of-key'),
+                  Clause("not self._finished and (self.name == '+') == (key is not None)", carries='C10',
                          label='defaults-keyed-exactly-when-the-key-is-a-wildcard')],
          raises=[Raise('ZConfig.SchemaError', carries='C10',
                        label='finished-or-keying-mismatch-or-duplicate')],
          notes='dispatches to add_valueinfo of the subclass (interface contract below)')
 contract('info.BaseKeyInfo.add_valueinfo', params={'vi': VI, 'key': 'Opt[str]'},
-         requires=[Clause("(self.name == '+') == (key is not None)", label='keyed-iff-wildcard')],
-         modifies=['self._default'], raises=[Raise('ZConfig.SchemaError', carries='C10', label='duplicate')],
+         requires=[Clause("(self.name == '+') == (key is not None)", label='keyed-iff-wildcard'),
+                   Clause('key_default_shape(self)')],
+         modifies=['self._default'], ensures=[Clause('key_default_shape(self)')], raises=[Raise('ZConfig.SchemaError', carries='C10', label='duplicate')],
          assumed=True, notes='abstract method: interface of KeyInfo.add_valueinfo / MultiKeyInfo.add_valueinfo (both proved)')
 
 RAWD = "(old(self._default) if is_alt(old(self._rawdefaults), 'none') else old(self._rawdefaults))"
@@ -319,7 +326,6 @@ contract('info.SectionInfo.__init__',
                        when="(maxOccurs > 1 and (not (name == '*' or name == '+') or attribute is None or attribute == '')) "
                             "or maxOccurs < 1 or minOccurs > maxOccurs",
                        carries='C10', label='multisection-with-fixed-name-or-without-attribute-or-bad-bounds')])
-MODELS['info.AbstractType'].fields['name'] = 'Opt[str]'
 contract('info.AbstractType.__init__', params={'name': 'str'},
          ensures=[Clause('self.name == name and len(self._subtypes) == 0 and self.description is None', carries='C12',
                          label='no-implementers-yet')])
@@ -460,7 +466,8 @@ contract('info.SchemaType.deriveSectionType',
                   Clause('forall(lambda i: implies(0 <= i and i < len(%s), derived_child(result._children[i][0], '
                          'result._children[i][1], %s[i][0], %s[i][1], keytype)))' % (BCH, BCH, BCH), carries='C02,C11',
                          label='each-child-inherited-in-order-wildcard-defaults-re-normalised-on-a-copy'),
-                  Clause('self._types.items == updated(old(self._types.items), name, result)', carries='C10',
+                  Clause('name not in old(self._types.items) and '
+                         'self._types.items == updated(old(self._types.items), name, result)', carries='C10',
                          label='registered-under-its-name')],
          raises=[Raise('ZConfig.SchemaError+', carries='C10,C11',
                        label='base-is-the-schema-or-name-taken-or-defaults-collide'),
@@ -472,7 +479,8 @@ contract('info.SchemaType.deriveSectionType',
                                        label='children-so-far-derived'),
                                 Clause('forall(lambda j: implies(_i0 <= j and j < len(%s), t._children[j] == %s[j]))' % (BCH, BCH),
                                        label='later-children-still-the-base-ones'),
-                                Clause('self._types.items == updated(old(self._types.items), name, t)')],
+                                Clause('name not in old(self._types.items) and '
+                                       'self._types.items == updated(old(self._types.items), name, t)')],
                      locals={'key': 'Opt[str]', 'info': 'Ref[info.BaseInfo]', 'i': 'int'},
                      modifies=['t._children', '+info.BaseKeyInfo.*', '+info.BaseInfo.*'])])
 
